@@ -1383,3 +1383,10 @@ func (cl *Cluster) HistoryCopy(vbID uint16) []Item {
 	defer vb.mu.Unlock()
 	return append([]Item{}, vb.Items...)
 }
+
+func (cl *Cluster) FailoverCopy(vbID uint16) []Failover {
+	vb := cl.VBs[vbID]
+	vb.mu.Lock()
+	defer vb.mu.Unlock()
+	return append([]Failover{}, vb.Failover...)
+}
